@@ -35,6 +35,7 @@ SPEC = dict(
         "SymVerif.C43.perfect_power_meaning",
         "SymVerif.C43.perfect_power",
         "SymVerif.C43.trial_prime",
+        "SymVerif.C43.probab_prime",
         "SymVerif.C43.powmod_meaning",
         "SymVerif.C43.powm",
         "SymVerif.C43.fac",
@@ -58,10 +59,61 @@ SPEC = dict(
         "SymVerif.C43.orig_lucnum2_zero_differs",
         "SymVerif.C43.orig_perfectPower_unbounded",
     ],
-    rule="op lines `mp <fn> <args>` (one call of a backend-neutral mp_* function / integer_class operator) and "
+    rule="op lines `mp <fn> <args>` (one call of a backend-neutral mp_* function / integer_class operator), "
          "`work <family> <k>` (deterministic exact workload through ntheory, Rational, expand, polynomials, "
-         "printing, matrices); every line is run through each integer-backend build (gmp, boostmp; thorough: "
-         "+gmpxx) and compared with the Lean specification (mp) or with the GMP build's result (work)",
-    not_covered=[],
-    assumptions=[],
+         "printing, matrices) and `parse <literal>`; every line is run through each integer-backend build (gmp "
+         "mpz_wrapper, boostmp; thorough: + gmpxx) and compared with the Lean specification (mp, parse) or with "
+         "the GMP build's result tabulated by the translator (work). distinct = distinct op lines; non-trivial = "
+         "every line. tags: small-* exhaustive ranges (|a|,|b| <= 12, thorough 40; roots |i| <= 400/3000, n <= 6; "
+         "powm cube), big-* random 64..2000-bit arguments incl. zero, negatives, 2^k, 2^k+-1, perfect powers +-1, "
+         "seq (fib/lucas/fac/bin/primorial), convert (word boundaries), edge-* (the inputs of defects D1-D8), "
+         "parse-*, work-<family>",
+    not_covered=[
+        "FLINT and Piranha backends (libraries not installed)",
+        "exact GMP cofactor normalisation of mp_gcdext is not proved (gcdext_full stated; exhaustive small range, "
+        "random big arguments and the harness oracle gcdext-norm check it); mp_nextprime is compared only",
+        "Boost library primitives (divide_qr, pow, gcd, lcm, powm, find_lsb, operator&, miller_rabin_test) and "
+        "GMP itself are trusted to meet their documentation",
+        "mp_get_d/mp_set_d (GMP truncates, Boost rounds to nearest: eval_double(Integer(2^53+3)) differs in the "
+        "last place; floating point, not an exact computation), mp_set_str prefixes, non-fitting get_si/get_ui, "
+        "operator>> of a negative integer_class (mpz_wrapper truncates, mpz_class/cpp_int floor; never used on "
+        "negative values by symengine)",
+        "inputs on which GMP aborts (division by zero, even root of a negative, 0^(-k)), legendre with a non-prime, "
+        "jacobi with an even lower argument",
+        "random-number based functions (mp_randstate, factor/pollard with random seeds)",
+        "perfect_power theorem: bit length < 10^6; legendre theorem: p < 10^6",
+        "workload families: a change that alters a result on all backends alike is not an alarm here (the "
+        "expected table is regenerated from the GMP build on every run)",
+    ],
+    assumptions=[
+        "strong probable prime test to the first 13 prime bases is exact below 3.3*10^24 (Sorenson-Webster); the "
+        "generated prime arguments are < 2^66; below 10^6 the specification uses trial division (proved = Nat.Prime)",
+        "boost::multiprecision::miller_rabin_test(n, 25) answers primality correctly (error < 4^-25)",
+        "GMP (mpz_*) meets its documentation; the correspondence of the gmp and gmpxx builds with the same Lean "
+        "specification checks this on every generated input",
+    ],
+    level_text="Machine-checked proofs (Lean 4 kernel; Mathlib for primes, ZMod/Euler criterion and jacobiSym) that "
+               "the hand-written Boost.Multiprecision implementations of symengine's integer interface "
+               "(mp_boost.cpp / mp_class.h, modelled loop by loop with the proposed one-line repairs D1-D8) return "
+               "for ALL arguments what the GMP-documented specification returns: floor/ceiling/truncated division "
+               "for the four sign combinations, modular inverse in [0,|m|), modular powers incl. negative moduli "
+               "and exponents, Newton integer roots (invariant + termination, any starting guess) with sign and "
+               "exactness flag, sqrt/rootrem/sqrtrem/perfect squares, perfect powers (prime-exponent loop and "
+               "its number theory), factorial, Fibonacci/Lucas by 2x2 matrix squaring, binomial (exact division "
+               "at every step), Jacobi/Legendre/Kronecker symbols against Mathlib's jacobiSym; extended gcd: "
+               "gcd and Bezout identity. The unrepaired code is refuted on the minimal witnesses.",
+    level_note="Three-way tie: every generated op runs through the gmp, boostmp (and gmpxx) builds of the working "
+               "tree and through the Lean driver, which prints the specification value and cross-checks the "
+               "Boost model; the harness oracle re-checks the defining inequalities with schoolbook arithmetic. "
+               "Higher layers (work families) are compared backend against backend through a table regenerated "
+               "from the GMP build. Not proved: GMP's cofactor normalisation for mp_gcdext, mp_nextprime.",
+    technique="Lean 4 executable specification over Int/Nat + loop-by-loop model of mp_boost.cpp (well-founded "
+              "recursion for the Euclid, Newton, Jacobi and matrix-power loops) + equality theorems by loop "
+              "invariants (Bezout combination; x >= floor root by integer weighted AM-GM; residue classes for "
+              "square-and-multiply; (2|n)^k and quadratic reciprocity for the Jacobi recursion; k!|product of k "
+              "consecutive integers) ; translator tabulating GMP results for cross-backend comparison; fork + "
+              "time limit to observe non-termination.",
+    partial=["gcdext_bezout (gcd and Bezout identity proved; equality of the cofactors with GMP's normalisation "
+             "stated as gcdext_full, checked by correspondence and oracle only)"],
+    run_timeout=1500,
 )
